@@ -24,6 +24,10 @@ def configs(tier):
     # falsy / empty-container / tuple node classes: the hooks fire for them like for any node
     for kind in ("trap:light:falsy", "trap:falsy", "trap:light:len0", "trap:tuple0", "trap:tuple2"):
         out.append(dict(kind=kind, n=3, cfg=dict(CFG, nonnode=False), hidden=False, d=0, assertions=0, judge="c16", snap=True))
+    # the class of the exception a hook raises is the hook's business: it reaches the caller unchanged (AttributeError,
+    # TreeError, ValueError ... subclasses), whatever the library itself raises and catches internally
+    for kind, fl in (("mixin", "attr"), ("light", "attr"), ("mixin", "tree"), ("node", "value"), ("light", "loop")):
+        out.append(dict(kind=kind, n=3, cfg=dict(CFG, nonnode=False, extras=False), hidden=False, d=1, assertions=0, judge="c16", snap=True, flavour=fl))
     # hooks put on the class only after nodes of it have been linked once
     for kind in ("late", "late:light", "insthook"):
         out.append(dict(kind=kind, n=3, cfg=dict(CFG), hidden=False, d=1, assertions=0, judge="c16", snap=True))
